@@ -225,7 +225,7 @@ func genCase(t *rapid.T) Case {
 	if len(m.In) <= 8 && rapid.IntRange(0, 59).Draw(t, "huge") == 0 {
 		i := rapid.IntRange(0, len(m.In)-1).Draw(t, "huge_at")
 		if !m.In[i].PrevNil {
-			m.In[i].PrevScript = gen.FillBytes(t, rapid.SampledFrom([]int{65535, 65536, 70000}).Draw(t, "huge_len"), "huge_script")
+			m.In[i].PrevScript = gen.FillBytes(t, rapid.SampledFrom([]int{65535, 65536, 70000, 131071, 131072, 131073, 200000}).Draw(t, "huge_len"), "huge_script")
 		}
 	}
 	return Case{Src: "gen", Tx: m}
